@@ -43,6 +43,12 @@ func (c *Case) fail(what, sig string) {
 var out *bufio.Writer
 
 func emit(c *Case) {
+	if c.Text == nil {
+		c.Text = []string{}
+		if c.Oracle != "" {
+			c.Text = []string{c.Oracle}
+		}
+	}
 	b, err := json.Marshal(c)
 	if err != nil {
 		panic(err)
